@@ -26,7 +26,7 @@ theorem annot_prefix_fold (src : Array UInt8) (a : Ann) (ha : a.isAnn = true) (t
           (ob.evs (SchemaScan.objOff tok s1 s2) ++ nlEvs (SchemaScan.objOff tok s1 s2 + 1 + ob.body.length + 1) s3)))) {}
       (annSt (modeOf a) .commentTextBegin
         (addSpans { kind := .lit, parent := none, value := some (0, tok.length - 1) }
-          (ob.spans (SchemaScan.objOff tok s1 s2))) rn' 1) := by
+          (ob.spans (SchemaScan.objOff tok s1 s2)) (ob.vspans (SchemaScan.objOff tok s1 s2))) rn' 1) := by
   have hm := @modeOf_ne a
   have f1 : Fold src [⟨.litB, 0, 0⟩, ⟨.litE, 0, tok.length - 1⟩,
       ⟨a.B, SchemaScan.annOff tok s1, SchemaScan.annOff tok s1 + 1⟩] {} _ := st_open src a ha _ _ _
@@ -37,7 +37,7 @@ theorem annot_prefix_fold (src : Array UInt8) (a : Ann) (ha : a.isAnn = true) (t
   obtain ⟨rn', f4⟩ := obj_fold src (modeOf a) hm 1 ob (SchemaScan.objOff tok s1 s2)
     { kind := .lit, parent := none, value := some (0, tok.length - 1) } (0, 0)
   have f5 := nl_fold src (modeOf a) hm .commentTextBegin rfl
-    (addSpans { kind := .lit, parent := none, value := some (0, tok.length - 1) } (ob.spans (SchemaScan.objOff tok s1 s2)))
+    (addSpans { kind := .lit, parent := none, value := some (0, tok.length - 1) } (ob.spans (SchemaScan.objOff tok s1 s2)) (ob.vspans (SchemaScan.objOff tok s1 s2)))
     rn' 1 s3 (SchemaScan.objOff tok s1 s2 + 1 + ob.body.length + 1)
   refine ⟨rn', (Fold.trans f1 (Fold.trans f2 (Fold.trans f3 (Fold.trans f4 f5)))).cast ?_ rfl⟩
   simp
@@ -47,7 +47,7 @@ theorem annot_fold_note (src : Array UInt8) (a : Ann) (ha : a.isAnn = true) (tok
     (s3 n1 note tl : List Cls) :
     ∃ st, Fold src (annEvsN a tok s1 s2 ob s3 n1 note tl) {} st ∧ st.root = some 0 ∧
       st.nodes = #[{ addSpans { kind := .lit, parent := none, value := some (0, tok.length - 1) }
-          (ob.spans (SchemaScan.objOff tok s1 s2)) with
+          (ob.spans (SchemaScan.objOff tok s1 s2)) (ob.vspans (SchemaScan.objOff tok s1 s2)) with
         comment := some (SchemaScan.noteOff tok s1 s2 ob s3 n1, SchemaScan.noteOff tok s1 s2 ob s3 n1 + note.length - 1) }] := by
   obtain ⟨rn', fp⟩ := annot_prefix_fold src a ha tok s1 s2 ob s3
   have htail : ∃ x y rest, noteTailEvs (SchemaScan.annOff tok s1) (SchemaScan.noteOff tok s1 s2 ob s3 n1)
@@ -70,20 +70,20 @@ theorem annot_fold_note (src : Array UInt8) (a : Ann) (ha : a.isAnn = true) (tok
         · exact nlEvs_ty _ _ e he
   obtain ⟨x, y, rest, hte, hrest⟩ := htail
   have g1 := Fold.one (st_txtB src a ha
-    (addSpans { kind := .lit, parent := none, value := some (0, tok.length - 1) } (ob.spans (SchemaScan.objOff tok s1 s2)))
+    (addSpans { kind := .lit, parent := none, value := some (0, tok.length - 1) } (ob.spans (SchemaScan.objOff tok s1 s2)) (ob.vspans (SchemaScan.objOff tok s1 s2)))
     rn' 1 (SchemaScan.noteOff tok s1 s2 ob s3 n1) (SchemaScan.noteOff tok s1 s2 ob s3 n1))
   have g2 := Fold.one (st_txtE src a ha
-    (addSpans { kind := .lit, parent := none, value := some (0, tok.length - 1) } (ob.spans (SchemaScan.objOff tok s1 s2)))
+    (addSpans { kind := .lit, parent := none, value := some (0, tok.length - 1) } (ob.spans (SchemaScan.objOff tok s1 s2)) (ob.vspans (SchemaScan.objOff tok s1 s2)))
     rn' 1 (SchemaScan.noteOff tok s1 s2 ob s3 n1) (SchemaScan.noteOff tok s1 s2 ob s3 n1 + note.length - 1))
   have g3 := Fold.one (st_annE src a ha .endOfLoading
     { addSpans { kind := .lit, parent := none, value := some (0, tok.length - 1) }
-        (ob.spans (SchemaScan.objOff tok s1 s2)) with
+        (ob.spans (SchemaScan.objOff tok s1 s2)) (ob.vspans (SchemaScan.objOff tok s1 s2)) with
       comment := some (SchemaScan.noteOff tok s1 s2 ob s3 n1, SchemaScan.noteOff tok s1 s2 ob s3 n1 + note.length - 1) }
     rn' 1 x y)
   obtain ⟨st, g4, hn, hr⟩ := nl_fold_default src rest
     { annSt (modeOf a) .endOfLoading
         { addSpans { kind := .lit, parent := none, value := some (0, tok.length - 1) }
-            (ob.spans (SchemaScan.objOff tok s1 s2)) with
+            (ob.spans (SchemaScan.objOff tok s1 s2)) (ob.vspans (SchemaScan.objOff tok s1 s2)) with
           comment := some (SchemaScan.noteOff tok s1 s2 ob s3 n1, SchemaScan.noteOff tok s1 s2 ob s3 n1 + note.length - 1) }
         rn' 1 with mode := .default } hrest rfl
   refine ⟨st, ?_, by rw [hr]; rfl, by rw [hn]; rfl⟩
